@@ -113,7 +113,7 @@ def compare(c, mo, io):
     # queries beyond the created tensors answer bad-op (model) / rejected (impl): both mean "no such tensor"
     diffs = []
     for k, (m, i) in enumerate(zip(mo, io)):
-        if m == 'bad-op' and i == 'rejected' and c['lines'][k].startswith(tprog.QUERIES): continue
+        if m == 'bad-op' and i == 'rejected' and c['lines'][k].startswith(tprog.QUERIES + ('t iter next',)): continue   # no such tensor / iterator
         if not tprog.close_line(m, i, 1e-6 if c.get('dt') == 'f32' else 1e-9):
             diffs.append((c['lines'][k], m[:200], str(i)[:200]))
     return diffs[:3]
